@@ -149,7 +149,8 @@ class Router(frappy.protocol.dispatcher.Dispatcher):
                 if modname in allmodules:
                     self.log.info('module %r is already present', modname)
                 else:
-                    allmodules[modname] = moddesc
+                    # copy: the cached description of the node must not be modified
+                    allmodules[modname] = moddesc = dict(moddesc)
                     moddesc.setdefault('original_id', equipment_id)
         result['modules'] = allmodules
         result['description'] = '\n\n'.join(node_description)
